@@ -208,6 +208,56 @@ pub fn run(ctx: &mut Ctx) {
                 }
             }
         }
+        // division register partly zero while zero codewords are consumed: a prefix whose remainder has m leading
+        // zero coefficients, followed by m zero codewords (the remainder is then only shifted: parity ends with m
+        // zeros), at the end of the block and in front of a further tail
+        {
+            let k = r.k();
+            for b in 0..r.blocks {
+                let pos: Vec<usize> = (b..r.data).step_by(r.blocks).collect();
+                for m in 1..=5usize.min(k - 1) {
+                    if pos.len() < k + m + 2 {
+                        continue;
+                    }
+                    for variant in 0..3 {
+                        if !ctx.mine(item) {
+                            item += 1;
+                            continue;
+                        }
+                        item += 1;
+                        let mut t = vec![0u8; k];
+                        for e in t.iter_mut().skip(m) {
+                            *e = 1 + ctx.rng.below(255) as u8;
+                        }
+                        let d = crate::refimpl::gf::data_for_parity(k, &t);
+                        let mut v = if variant == 1 { ctx.rng.bytes(r.data) } else { vec![0u8; r.data] };
+                        for p in &pos {
+                            v[*p] = 0;
+                        }
+                        // variant 0/1: [0.. d 0^m] ; variant 2: [0.. d 0^m x y] with a random two-codeword tail
+                        let tail = if variant == 2 { 2 } else { 0 };
+                        let start = pos.len() - k - m - tail;
+                        for (j, dv) in d.iter().enumerate() {
+                            v[pos[start + j]] = *dv;
+                        }
+                        if tail > 0 {
+                            v[pos[pos.len() - 2]] = ctx.rng.byte();
+                            v[pos[pos.len() - 1]] = 1 + ctx.rng.below(255) as u8;
+                        }
+                        if let Some(ecc) = eval(ctx, r, &rs, &v, "register_partly_zero") {
+                            if tail == 0 {
+                                let got: Vec<u8> = (0..k).map(|j| ecc[b + j * r.blocks]).collect();
+                                let mut want: Vec<u8> = t[m..].to_vec();
+                                want.extend(std::iter::repeat(0u8).take(m));
+                                if got != want {
+                                    ctx.violation("prescribed_parity_not_reproduced", &case_for(r, &v), format!("block {}: expected parity {:?} (remainder shifted by {} zero codewords)", b, &want[..k.min(8)], m));
+                                }
+                            }
+                        }
+                    }
+                }
+            }
+        }
         // encoder outputs: parity of DataMatrix::codewords() as shipped
         let n_enc = ctx.budget(16 * 20, 16 * 400);
         for _ in 0..n_enc {
